@@ -57,21 +57,26 @@ def raster_event(rng):
 def sparse_event(rng):
     from gscrib.heightmaps import SparseHeightMap
     n = rng.randint(4, 8)
+    # coordinates with one decimal in half of the maps (added after seed C19e: a CSV loaded in single precision moved
+    # 12.7 and 8.3 off the hull); the specification sees them in tenths, as integers
+    k = 10 if rng.random() < 0.5 else 1
     while True:
         pts = {}
         while len(pts) < n:
-            pts[(rng.randint(0, 20), rng.randint(0, 20))] = rng.randint(-10, 10) * 0.5
+            pts[(rng.randint(0, 20 * k), rng.randint(0, 20 * k))] = rng.choice([rng.randint(-10, 10) * 0.5, round(rng.uniform(-5, 5), 3)])
         P = [[x, y, z] for (x, y), z in pts.items()]
         # non-collinear
         if any((P[1][0] - P[0][0]) * (p[1] - P[0][1]) - (P[1][1] - P[0][1]) * (p[0] - P[0][0]) != 0 for p in P[2:]):
             break
-    if rng.random() < 0.3:
+    R = [[p[0] / k, p[1] / k, p[2]] for p in P]          # real coordinates
+    if rng.random() < 0.5:
         path = os.path.join(tempfile.mkdtemp(dir=workdir()), "map.csv")
-        np.savetxt(path, np.array(P, dtype=float), delimiter=",")
+        np.savetxt(path, np.array(R, dtype=float), delimiter=",", fmt="%.6f")
         m = SparseHeightMap.from_path(path)
     else:
-        m = SparseHeightMap(np.array(P, dtype=float))
-    qxy = [(p[0], p[1]) for p in P] + [(rng.randint(-3, 23), rng.randint(-3, 23)) for _ in range(25)]
+        m = SparseHeightMap(np.array(R, dtype=float))
+    qxy = [(p[0], p[1]) for p in P] + [(rng.randint(-3 * k, 23 * k), rng.randint(-3 * k, 23 * k)) for _ in range(25)]
+    qxy = [(x, y, k) for x, y in qxy]
     lines = []
     for _ in range(4):
         line = [rng.randint(0, 20), rng.randint(0, 20), rng.randint(0, 20), rng.randint(0, 20)]
@@ -87,7 +92,7 @@ def sparse_event(rng):
 def _sparse_measure(m, P, qxy, lines, scale, tol):
     m.set_scale(scale)
     m.set_tolerance(tol)
-    queries = [[x, y, zq(m.get_depth_at(x, y))] for x, y in qxy]
+    queries = [[x, y, zq(m.get_depth_at(x / k, y / k))] for x, y, k in qxy]
     paths = []
     for line in lines:
         pts = m.sample_path([float(v) for v in line])
